@@ -331,3 +331,6 @@ def run(rep, prog, thorough):
     check_barriers(rep, fm)
     # nothing but the JSON documents reaches stdout: no decoder / library function prints there (rule shared with C09)
     check_decoder_prints(rep, prog, rule="C06.R4.stdout-only-json")
+    # stdout is ONE document: the modes exclude each other and each ends the run (rule shared with C11)
+    from .c11 import check_exclusive
+    check_exclusive(rep, prog)
